@@ -20,6 +20,8 @@ class ClassRef:
                 self.bases.append(b.id)
             elif isinstance(b, ast.Attribute):
                 self.bases.append(b.attr)
+        # classes defined in the class body (in scope for the rest of the body, attributes of the class afterwards)
+        self.nested = {n.name: ClassRef(n.name, n, module) for n in node.body if isinstance(n, ast.ClassDef)}
         self.class_attrs = {}
         for n in node.body:
             if isinstance(n, ast.Assign):
